@@ -664,6 +664,10 @@ RULES = [
 ]
 
 
+from . import shared
+RULES = RULES + shared.bundle('C20', [], ['convert'])
+
+
 def run(tier="quick", replay=None):
     return run_check(
         "C20", RULES, tier=tier, replay=replay,
